@@ -143,6 +143,7 @@ def abstract_ops(terms, kinds=('bvudiv', 'bvurem')):
 
 class Check:
     def __init__(self, pid, tier, seed):
+        self.deferred = []
         self.pid = pid
         self.tier = tier
         self.seed = seed
@@ -448,7 +449,23 @@ class Check:
             region_terms.append((e, rt))
         excl = [z3.Not(rt) for _, rt in region_terms]
         res = None
-        if arith == 'int':
+        if arith == 'int' and split is not None:
+            # case analysis in front of the integer translation: one small query per value of the split term
+            term, values = split
+            res, model, dt = 'unsat', None, 0.0
+            for v in values:
+                r1, m1, d1 = self.solve_int(list(pc) + excl + [term == v], goal=[neg], small_first=True)
+                dt += d1
+                if r1 != 'unsat':
+                    res, model = r1, m1
+                    break
+            rec['case_split'] = '%d cases over %s (each through the integer translation)' % (len(values), term)
+            if res == 'unsat':
+                rec['translation'] = 'decided in pure integer arithmetic, case by case'
+            elif res != 'sat':
+                res, model = 'unknown', 'integer translation undecided: %s' % (model,)
+            split = None
+        elif arith == 'int':
             hints = set(t.decl().name() for t in inputs.values() if z3.is_const(t) and t.decl().kind() == z3.Z3_OP_UNINTERPRETED)
             res, model, dt = self.solve_int(list(pc) + excl, goal=[neg], small_first=True, hint_vars=hints or None)
             if res == 'unsat':
@@ -521,6 +538,21 @@ class Check:
                 raise Inconclusive('known-finding region query for %s gave no verdict' % name)
         self.obligations.append(rec)
         return rec['verdict'].startswith('holds')
+
+    def guard(self, fn, *a, **k):
+        """run one kernel of a check; an inconclusive kernel (unsupported construct after an edit, vacuous cover, solver without
+        a verdict) must not hide what the remaining kernels of the check can still decide: it is recorded, the check goes on,
+        and the run ends inconclusive (exit 2) unless a confirmed violation was found elsewhere"""
+        try:
+            return fn(*a, **k)
+        except (Inconclusive, Unsupported, MirSyntax) as e:
+            msg = '%s in %s: %s' % (type(e).__name__, getattr(fn, '__name__', 'kernel'), str(e)[:600])
+            print('INCONCLUSIVE-KERNEL property=%s %s' % (self.pid, msg))
+            self.deferred.append(msg)
+            if self.interp is not None:
+                # leave no kernel-local model behind
+                self.interp.base_read_hooks.pop('history', None)
+            return None
 
     def _try_replay(self, replay, model):
         try:
@@ -671,6 +703,9 @@ def run_check(pid, body, tier, seed):
         body(chk)
         if chk.violations:
             status, code = 'violation', 1
+        elif chk.deferred:
+            status, code = 'inconclusive: %d kernel(s) gave no verdict: %s' % (len(chk.deferred), chk.deferred[0][:400]), 2
+            print('INCONCLUSIVE property=%s %s' % (pid, status[:1500]))
         elif chk.unconfirmed:
             status, code = 'inconclusive: %d unconfirmed solver counterexample(s): %s' % (len(chk.unconfirmed), chk.unconfirmed[0][:300]), 2
             print('INCONCLUSIVE property=%s %s' % (pid, status[:1500]))
